@@ -100,7 +100,12 @@ class RawValue(Harness):
                     ("binary: empty value has an empty raw value", isinstance(e.raw_value, bv.SymBytes) and len(e.raw_value) == 0)]
         else:              # precondition: no special methods
             sp = defined_specials()
-            obl += [("precondition: value / packet classes define no comparison, hashing, formatting, arithmetic or copy hooks" + (": " + ", ".join(sp) if sp else ""), not sp)]
+            if sp:
+                # not a violation of the property by itself: the clauses this technique cannot decide are no longer covered by the
+                # "CPython does it" argument, so the check must not pass -> inconclusive (exit 2)
+                from spv.engine import EngineLimit
+                raise EngineLimit("precondition broken: value / packet classes now define " + ", ".join(sp) + "; drop-in / copying behaviour is library code "
+                                  "that this technique does not decide")
             rc = lib.real_classes      # the library's own classes (the re-hosted ones subclass the proxies)
             obl += [("value classes subclass the matching built-ins", issubclass(rc["IntParameter"], int) and issubclass(rc["BoolParameter"], int)
                      and issubclass(rc["FloatParameter"], float) and issubclass(rc["StrParameter"], str) and issubclass(rc["BinaryParameter"], bytes))]
